@@ -375,7 +375,7 @@ func attemptSig(d progen.KeyParams, v string) string {
 // KeyCheck is the main of C11.
 func KeyCheck() {
 	r := ev.New("C11", "exploration")
-	r.SetBudget(100*time.Second, 25*time.Minute)
+	r.SetBudget(260*time.Second, 25*time.Minute)
 	core.VerifQuiet()
 	if r.ReplayPath != "" {
 		var c KeyCase
